@@ -128,10 +128,18 @@ theorem model_satisfies_spec (raw : Int) (cfg : Cfg) (hcfg : cfg.maxCost = clamp
   unfold judgeNums obsOf
   simp only
   have c1 : ¬ ((r.2.ticks : Int) > (if cfg.maxCost > 0 then cfg.maxCost else if lim.cost > 0 then lim.cost else 0) +
-      (lim.safeWeight : Int) + (handlerAllowance : Int) * (r.2.raises : Int)) := by
+      (lim.safeWeight : Int) + deliveryAllowance lim (r.2.maxDepth - 1) * (r.2.raises : Int)) := by
     rw [if_pos hcpos, h4]
-    have : (0 : Int) ≤ (handlerAllowance : Int) * (r.2.raises : Int) := by
-      apply Int.mul_nonneg <;> omega
+    have h0 : (0 : Int) ≤ deliveryAllowance lim (r.2.maxDepth - 1) := by
+      unfold deliveryAllowance
+      have : (0 : Int) ≤ (traceAllowance : Int) * (lim.traceValues : Int) * (((r.2.maxDepth - 1 + 2).toNat : Nat) : Int) := by
+        apply Int.mul_nonneg
+        · apply Int.mul_nonneg <;> omega
+        · omega
+      have : (0 : Int) ≤ (handlerAllowance : Int) := by omega
+      omega
+    have : (0 : Int) ≤ deliveryAllowance lim (r.2.maxDepth - 1) * (r.2.raises : Int) := by
+      apply Int.mul_nonneg h0; omega
     omega
   have c2 : ¬ (lim.depth > 0 ∧ r.2.maxDepth - 1 > lim.depth - 1) := by
     rw [h2]; have := hD.2; omega
